@@ -6,6 +6,9 @@ import (
 	"encoding/base64"
 	"net"
 
+	"github.com/fatedier/golib/pool"
+
+	"github.com/fatedier/frp/pkg/msg"
 	"github.com/fatedier/frp/verif"
 )
 
@@ -34,4 +37,139 @@ func verif_udp_payload_round_trip(buf []byte, laddr, raddr *net.UDPAddr) {
 func verif_UDPConn_ReadFromUDP(c *net.UDPConn, b []byte) {
 	n, _, _ := c.ReadFromUDP(b)
 	verif.Ensures(0 <= n && n <= len(b), "udp_read_contract")
+}
+
+// ---------------------------------------------------------------- C03: datagram forwarding
+
+// Library contract (trusted, listed): pool.GetBuf(n) is a buffer of n bytes.
+//
+//verif:contract github.com/fatedier/golib/pool.GetBuf
+//verif:trusted
+func verif_pool_GetBuf(size int) {
+	b := pool.GetBuf(size)
+	verif.Ensures(len(b) == size || size < 0, "buffer_of_the_requested_size")
+}
+
+const (
+	evRecv  = "UDPConn).ReadFromUDP"
+	evSendU = "UDPConn).WriteToUDP"
+	evPack  = "udp.NewUDPPacket"
+)
+
+// ForwardUserConn, public socket -> tunnel (one arbitrary iteration of the read
+// loop): exactly one packet is built for the datagram just read, from exactly
+// the bytes read (buf[:n] - encoded into a string before the buffer is reused)
+// and tagged with the address the datagram came from; it is offered to the
+// tunnel without blocking.
+//
+//verif:loopbody ~/pkg/proto/udp.ForwardUserConn 1 check=verifUserToTunnel args=buf
+func verifUserToTunnel(buf []byte, i int) bool {
+	if !verif.CalledInIter(evRecv) || verif.IterRet[error](evRecv, 2) != nil {
+		return false
+	}
+	n := verif.IterRet[int](evRecv, 0)
+	from := verif.IterRet[*net.UDPAddr](evRecv, 1)
+	payload := verif.IterArg[[]byte](evPack, 0)
+	return verif.CalledInIter(evPack) && len(payload) == n && (i < 0 || i >= n || payload[i] == buf[i]) &&
+		verif.IterArg[*net.UDPAddr](evPack, 2) == from && verif.IterArg[*net.UDPAddr](evPack, 1) == nil
+}
+
+//verif:contract ~/pkg/proto/udp.ForwardUserConn
+//verif:props C03 C16
+func verif_ForwardUserConn(udpConn *net.UDPConn, readCh <-chan *msg.UDPPacket, sendCh chan<- *msg.UDPPacket, bufSize int) {
+	verif.Requires(bufSize >= 0, "packet_size_not_negative")
+	verif.ResetEvents()
+	ForwardUserConn(udpConn, readCh, sendCh, bufSize)
+	verif.Ensures(verif.Called(evRecv) && verif.RetErr(evRecv, 2) != nil || verif.Recovered(), "stops_only_when_the_socket_fails_or_the_tunnel_side_is_gone")
+}
+
+// ForwardUserConn, tunnel -> public socket (the reader goroutine, one arbitrary
+// iteration): a reply whose payload decodes is written, as one datagram with
+// exactly the decoded payload, to the user address the reply is tagged with and
+// to no other; a reply that does not decode is dropped.
+//
+//verif:loopbody ~/pkg/proto/udp.ForwardUserConn$1 1 check=verifTunnelToUser args=udpMsg
+func verifTunnelToUser(m *msg.UDPPacket) bool {
+	if !verif.CalledInIter("udp.GetContent") {
+		return false
+	}
+	if verif.IterRet[error]("udp.GetContent", 1) != nil {
+		return !verif.CalledInIter(evSendU)
+	}
+	return verif.CalledWithInIter("udp.GetContent", 0, m) && verif.CalledInIter(evSendU) &&
+		verif.Same(verif.IterArg[[]byte](evSendU, 1), verif.IterRet[[]byte]("udp.GetContent", 0)) &&
+		verif.IterArg[*net.UDPAddr](evSendU, 2) == m.RemoteAddr
+}
+
+//verif:contract ~/pkg/proto/udp.ForwardUserConn$1
+//verif:props C03
+func verif_ForwardUserConn_replies() {
+	verif.ResetEvents()
+	verif.CallTarget()
+}
+
+// Forwarder (client side), backend -> tunnel (writerFn, one arbitrary iteration
+// of its read loop): the reply just read from the backend socket opened for
+// user address raddr is packed from exactly the bytes read and tagged with
+// raddr - "every reply ... is delivered ... to the user address whose datagram
+// it answers and to no other user".
+//
+//verif:loopbody ~/pkg/proto/udp.Forwarder$1 1 check=verifBackendToTunnel args=raddr,buf
+func verifBackendToTunnel(raddr *net.UDPAddr, buf []byte, i int) bool {
+	if !verif.CalledInIter(evRecv) || verif.IterRet[error](evRecv, 2) != nil {
+		return false
+	}
+	n := verif.IterRet[int](evRecv, 0)
+	payload := verif.IterArg[[]byte](evPack, 0)
+	return verif.CalledInIter(evPack) && len(payload) == n && (i < 0 || i >= n || payload[i] == buf[i]) &&
+		verif.IterArg[*net.UDPAddr](evPack, 2) == raddr && verif.IterArg[*net.UDPAddr](evPack, 1) == nil
+}
+
+//verif:contract ~/pkg/proto/udp.Forwarder$1
+//verif:props C03
+//verif:kinds loop,post,pre
+func verif_Forwarder_replies(raddr *net.UDPAddr, udpConn *net.UDPConn) {
+	verif.Requires(raddr != nil && udpConn != nil, "called_by_the_forwarder")
+	verif.ResetEvents()
+	verif.CallTarget(raddr, udpConn)
+	verif.Ensures(verif.Called("net.conn).Close"), "backend_socket_closed_when_done")
+}
+
+// Forwarder, tunnel -> backend (the reader goroutine, one arbitrary iteration):
+// a packet whose payload decodes is written, as one datagram with exactly the
+// decoded payload, to the backend socket kept for the packet's user address -
+// one socket per user address, created (and given its reply forwarder, tagged
+// with that same address) exactly when none exists yet.
+//
+//verif:loopbody ~/pkg/proto/udp.Forwarder$2 1 check=verifTunnelToBackend args=udpMsg
+func verifTunnelToBackend(m *msg.UDPPacket) bool {
+	if !verif.CalledInIter("udp.GetContent") {
+		return false
+	}
+	if verif.IterRet[error]("udp.GetContent", 1) != nil {
+		return !verif.CalledInIter("net.conn).Write") && !verif.CalledInIter("go:")
+	}
+	if verif.CalledInIter("net.DialUDP") && verif.IterRet[error]("net.DialUDP", 1) != nil {
+		return !verif.CalledInIter("net.conn).Write") && !verif.CalledInIter("go:")
+	}
+	wrote := verif.CalledInIter("net.conn).Write") && verif.Same(verif.IterArg[[]byte]("net.conn).Write", 1), verif.IterRet[[]byte]("udp.GetContent", 0))
+	if verif.CalledInIter("net.DialUDP") {
+		c := verif.IterRet[*net.UDPConn]("net.DialUDP", 0)
+		return wrote &&
+			verif.CalledWithInIter("go:", 0, m.RemoteAddr) && verif.CalledWithInIter("go:", 1, c)
+	}
+	return wrote && !verif.CalledInIter("go:")
+}
+
+// (Panic-freedom of this goroutine rests on an invariant of the captured
+// connection table - it only ever holds the non-nil results of successful
+// dials - which is not stated here: only the forwarding obligations are
+// generated for this unit.)
+//
+//verif:contract ~/pkg/proto/udp.Forwarder$2
+//verif:props C03
+//verif:kinds loop,post,pre
+func verif_Forwarder_requests() {
+	verif.ResetEvents()
+	verif.CallTarget()
 }
